@@ -332,6 +332,7 @@ class Oracle:
         kind, body = tok[:2], tok[2:]
         if kind in ("I:", "T:"):
             items = [body] if kind == "I:" else (body.split(",") if body else [])
+            items = ["i" + it[1:] if it[:1] == "j" else it for it in items]   # a numpy integer equals the int item
             by = {}
             for it in items:
                 holders = [d for d in x.dims if it in d[3]]
